@@ -1147,6 +1147,25 @@ func c19(c *core.Ctx) {
 		bad := ""
 		var where token.Pos
 		n := 0
+		// the per-file generator: the function with the templates, or — when the templates sit in a step function
+		// without an error result — the function of the plugin that calls it and has one
+		gen := gen
+		for k := 0; k < 3 && core.ErrResultIndex(gen.Signature) < 0; k++ {
+			up := gen
+			for _, cs := range callSitesOf(gen) {
+				if pf := cs.Parent(); pf != nil && core.PkgIs(pf, genPkg) {
+					for pf.Parent() != nil {
+						pf = pf.Parent()
+					}
+					up = pf
+				}
+			}
+			if up == gen {
+				break
+			}
+			gen = up
+		}
+		gk := core.FuncName(gen)
 		for _, r := range core.Returns(gen) {
 			ei := core.ErrResultIndex(gen.Signature)
 			if ei < 0 || ei >= len(r.Results) {
